@@ -16,7 +16,7 @@ TRUSTED = c01.TRUSTED
 ASSUMPTIONS = ["Rust semantics of Vec/usize as modelled", "float accuracy of det/inverse is searched, not proved",
                "'matrix unchanged' is observed by the executor (snapshot before/after); a value model satisfies it vacuously",
                "the theorems assume FieldLaws + PivLaws of the element arithmetic; both are proved for Qc, R, C = R[i] and mathcomp's rat (not for floats, which are no field)"]
-UNPROVED = ["rounding accuracy of det/inverse over f64/Complex (covered by tie + search)",
+UNPROVED = ["round two: determinant_product_error (computed det = +-prod u_ii (1+theta), |theta| <= gamma_n) and inverse_backward_error (each column of the computed inverse is an exact column of (A+dA_j)^-1) in the standard rounding model; the growth factor is not bounded -- f64/Complex accuracy itself is tie + search",
             "determinant = \\det is proved for arithmetics built from a mathcomp fieldType (ArithOf F); at the Qc instance used by the exact tier the "
             "same generic function is covered by lu_spec/determinant_sign_rule (abstract field) and by the Fraction oracle, not by a \\det statement"]
 
